@@ -223,6 +223,29 @@ def run(ctx):
         benign = rng.random() < 0.6
         out = SC.gen_outcome(rng, W, benign=benign)
         run_family(ctx, W, out, nsched, terms)
+    # components that join a stage while its loop runs (live patch applied while the controller sleeps; shared with
+    # C01): every stage ends with all of its components final, a failed component makes its stage fail, final states
+    # never change; compared with Sched.Patch.check_pcase after every event
+    import c01
+    pterms = []
+    pev = ('Patch', [SC.comp(mx=0, ro=[])], [], [['UnknownIssue']])
+    for tail in ([('Exit', 0), ('PM', 0), ('Fin', 0), ('Exit', 1), ('PM', 1), ('Fin', 1), ('Tick',), ('Tick',)],
+                 [('Exit', 1), ('PM', 1), ('Fin', 1), ('Exit', 0), ('PM', 0), ('Fin', 0), ('Tick',), ('Tick',)],
+                 [('Exit', 0), ('PM', 0), ('Fin', 0), ('Tick',), ('Exit', 1), ('PM', 1), ('Fin', 1), ('Tick',), ('Tick',)]):
+        c01.run_patched(ctx, [SC.comp()], {0: ['Success']}, c01.scripted([('Start',), ('Sleep',), pev, ('Wake',), ('Tick',)] + tail),
+                        pterms, 'patch_corpus', lambda d: (pev if d.patches == 0 else None), who='C02')
+    npa = 40 if ctx.tier == 'quick' else 400
+    for i in range(npa):
+        W = SC.gen_workflow(rng, nmax=5)
+        out = SC.gen_outcome(rng, W)
+        r2 = random.Random(rng.random())
+        c01.run_patched(ctx, W, out, c01.patch_chooser(r2, r2.choice([0.1, 0.25, 0.4])), pterms, 'patch_random',
+                        SC.make_patcher(r2), who='C02')
+    pbad = ctx.model_mismatches(SC.HEADER + '\nRequire Import V.Sched.Sleep V.Sched.Patch.', [t[0] for t in pterms],
+                                'check_pcase', chunk=25, name='patch')
+    for k, i in enumerate(pbad):
+        ctx.disagree(pterms[i][1], 'trace of the real controller with a live patch applied while it sleeps', '',
+                     'C02 trace with live patch: real Controller vs Sched.Patch.prun')
     bad = ctx.model_mismatches(SC.HEADER, [t[0] for t in terms], 'check_case', chunk=40)
     for k, i in enumerate(bad):
         ctx.disagree(terms[i][1], 'trace of the real controller', '', 'C01/C02 trace: real Controller vs Sched.Model.step')
